@@ -1,5 +1,72 @@
-(* STUB: Impl model of rhct.rs -- to be written *)
-From Coq Require Import NArith List.
-From ACPI Require Import Lib.Bytes Lib.Sx Lib.Machine Impl.Checksum Impl.Table Impl.Fields Impl.Run.
+(* Impl model of rhct.rs (case vocabulary: see Spec/RhctS.v) *)
+From Coq Require Import NArith List Bool.
+From ACPI Require Import Lib.Bytes Lib.Sx Lib.Machine Impl.Checksum Impl.Table Impl.Fields Impl.Run Impl.Madt.
 Import ListNotations.
-Definition rhct_case (md : mode) (c : sx) : list ev := [EvPanic].
+Open Scope N_scope.
+
+(* ---- IsaStringNode { string: &'static str } ---- *)
+(* fn len(): let len = 8 + string.len() + 1; if len % 2 == 0 { len } else { len + 1 } *)
+Definition isa_len (str : list N) : N :=
+  let len := 8 + N.of_nat (length str) + 1 in
+  if len mod 2 =? 0 then len else len + 1.
+
+(* to_aml_bytes: assert!(self.len() <= u16::MAX); strlen = string.len() as u16 + 1 (cannot overflow after the assert);
+   padding_reqd = strlen % 2 == 1 *)
+Definition isa_bytes (str : list N) : option (list N) :=
+  do _ <- assert (isa_len str <=? 65535);
+  let strlen := cast U16 (N.of_nat (length str)) + 1 in
+  let padding_reqd := strlen mod 2 =? 1 in
+  Some (w2 0 ++ w2 (isa_len str) ++ w2 1 ++ w2 strlen ++ str ++ b1 0 ++ (if padding_reqd then b1 0 else [])).
+
+(* ---- MmuNode, CmoNode ---- *)
+Definition mmu_bytes (scheme : N) : list N := w2 2 ++ w2 8 ++ w2 1 ++ b1 0 ++ b1 scheme.
+Definition cmo_bytes (cbom cbop cboz : N) : list N := w2 1 ++ w2 10 ++ w2 1 ++ b1 0 ++ b1 cbom ++ b1 cbop ++ b1 cboz.
+
+(* ---- HartInfoNode { processor_uid, handles: Vec<u32> }: new(uid, &isa) = vec![isa]; with_cmo pushes ---- *)
+Definition hart_len (handles : list N) : N := 12 + 4 * N.of_nat (length handles).
+
+Definition rh_dwords (l : list N) : list N := concat (map d4 l).
+
+Definition hart_bytes (uid : N) (handles : list N) : option (list N) :=
+  do _ <- assert (hart_len handles <=? 65535);
+  Some (w2 65535 ++ w2 (hart_len handles) ++ w2 1 ++ w2 (N.of_nat (length handles)) ++ d4 uid ++ rh_dwords handles).
+
+Fixpoint handle_refs (s : tbl) (l : list sx) : option (list N) :=
+  match l with
+  | [] => Some []
+  | x :: r => match handle_ref s x, handle_refs s r with Some h, Some hs => Some (h :: hs) | _, _ => None end
+  end.
+
+(* ---- table: Header = TableHeader, _reserved u32, timebase_frequency U64, rhct_nodes U32, array_offset U32 = 56 ---- *)
+Definition rhct_new (c : sx) : option tbl :=
+  match c with
+  | SL [o; t; r; SA timebase] =>
+      do h <- sx_hdr [82; 72; 67; 84] 1 o t r;          (* "RHCT" *)
+      Some (tbl_new KRhct h (q8 timebase))
+  | _ => None
+  end.
+
+Definition rhct_add (claimed : N) (bytes : list N) (ret : bool) : addition :=
+  {| a_style := SumAdd; a_claimed := claimed; a_bytes := bytes; a_returns := ret; a_flag := false |}.
+
+(* every add: handle_offset += len as u32; update_header(node.u8sum(), len as u32); push *)
+Definition rhct_addition (s : tbl) (o : sx) : option addition :=
+  match o with
+  | SL [SA 1; str] =>                                   (* add_isa_string -> IsaStringHandle *)
+      do sb <- sx_bytes str;
+      do b <- isa_bytes sb;
+      Some (rhct_add (isa_len sb) b true)
+  | SL [SA 2; SA scheme] => Some (rhct_add 8 (mmu_bytes scheme) false)                (* add_mmu_node *)
+  | SL [SA 3; SA cbom; SA cbop; SA cboz] => Some (rhct_add 10 (cmo_bytes cbom cbop cboz) true)   (* add_cmo -> CmoHandle *)
+  | SL [SA 4; SA uid; isa; SL cmos] =>                  (* add_hart_info of HartInfoNode::new(uid, isa) followed by with_cmo calls *)
+      do ih <- handle_ref s isa;
+      do chs <- handle_refs s cmos;
+      do b <- hart_bytes uid (ih :: chs);
+      Some (rhct_add (hart_len (ih :: chs)) b false)
+  | _ => None
+  end.
+
+Definition rhct_step : mode -> tbl -> sx -> option (tbl * list ev) := add_step rhct_addition.
+
+Definition rhct_case (md : mode) (c : sx) : list ev :=
+  run_history (fun s => Some (tbl_image s)) (rhct_step md) rhct_new c.
